@@ -263,6 +263,9 @@ def temp_profile(spec, N):
     elif name == 'aba':              # the same temperature below and above a warmer middle (equal values NOT adjacent)
         arr = np.full(N, 1000.0)
         arr[N // 2] = 1500.0
+    elif name == 'grad-iso':         # a hot gradient at depth under an exactly isothermal upper atmosphere
+        k = max(N // 2, 1)
+        arr = np.concatenate([np.linspace(2200.0, 1400.0, k), np.full(N - k, 1000.0)])[:N]
     elif name == 'outside':          # partly outside the 200..2500 K table range
         arr = np.linspace(3000.0, 150.0, N)
     else:
